@@ -17,10 +17,10 @@ RULES = {
     "R2": "shared default tables are read-only: every binding of _ALL_DEFAULT_ARGS, _RENDER_DATA_MRO, _FIELDS and _namespaces is a "
           "MappingProxyType(...) over a mapping built for that binding; RenderArgs.__init__ works on a .copy() of the class defaults",
     "R3": "the interning shortcut cannot re-initialise a shared object: the single mutating statement of RenderArgs.__init__ is dominated by "
-          "both early returns, and the 'default namespaces only' condition of __new__ and __init__ is the same expression modulo cls <-> type(self)",
+          "both early returns, and the 'default namespaces only' condition of __new__ and __init__ is the same expression modulo cls <-> type(self); the render class of a *set* of render arguments (`<x>.render_cls`) is never looked up in a namespace table (_namespaces, _ALL_DEFAULT_ARGS)",
     "R4": "precedence is the order of three writes in __init__: class defaults (canonical order) first, then a non-default initial set, then "
           "each namespace in argument order (last wins) after its compatibility test; __new__ rejects an incompatible initial set before any return",
-    "R5": "eq/hash agree: every cell read by __hash__ is compared by __eq__ (ArgsNamespace and RenderArgs)",
+    "R5": "eq/hash agree: every cell read by __hash__ is compared by __eq__ (ArgsNamespace and RenderArgs); __hash__ contains no identity test (`is`, id()) while __eq__ compares by value",
     "R7": "derived sets carry what they were derived from: RenderArgs.update returns RenderArgs(self.render_cls, self, <all given namespaces, unfiltered>), "
           "RenderArgs.convert returns self only for the same class and otherwise a RenderArgs built from self's namespaces, ArgsNamespace.to_render_args returns "
           "RenderArgs(<class>, self) - no shortcut bypasses the constructor's precedence and compatibility rules",
